@@ -18,6 +18,11 @@ fn main() {
     let mut st = ohmc::props::structured::shapes(kmax);
     st.extend(ohmc::props::structured::programs(kmax));
     ctx.run_slice(Slice::new(format!("structured[sizes 1..{}: {} diagrams]", kmax, st.len()), st.len() as u64, |i, loc| check::<B>(&st[i as usize].1, !fast, loc)));
+    // the same families at large size parameters (size thresholds, long chains, wide layers, long cycles)
+    let sizes: Vec<usize> = if quick { vec![33, 64, 65, 129] } else { vec![33, 64, 65, 129, 255, 256, 257, 513] };
+    let mut big = ohmc::props::structured::shapes_at(&sizes, false);
+    big.extend(ohmc::props::structured::programs_at(&sizes, false));
+    ctx.run_slice(Slice::new(format!("structured-large[sizes {:?}: {} diagrams]", sizes, big.len()), big.len() as u64, |i, loc| check::<B>(&big[i as usize].1, !fast, loc)));
     let meta = Meta {
         rule: "every hypergraph of the listed universes (repeated nodes inside one operation, self-dependence, cycles with tails, zero-arity operations, dependency multiplicities up to 4-9), wrapped as an open hypergraph; layer() and layered_operations() are judged against the definition (any layering with the stated properties is accepted); with the verif-hooks feature converse, operation_adjacency, indegree and kahn are additionally compared with reference loops; run under the checked and the release-like profile; plus structured families of larger diagrams, enumerated completely for every size parameter up to the stated bound and in five numberings (fan-out/fan-in, k parallel operations, chains, stars, cycles with tails, diamonds, multiplicity k, operations whose predecessors sit at depths j and k of a chain, one node read k times)".into(),
         bounds: "quick: <=3 nodes, <=3 operations, arity <=2; thorough adds 4 operations on <=2 nodes, 4 nodes with <=3 operations, 4-5 nodes with 4 unary operations, arity 3 with 2 operations".into(),
